@@ -26,6 +26,9 @@ PROP = {
  "multi-select hash rejects non-identifier keys": ("C04", "{1: a} and {a: b c: d} compiled (switches without default in selectObject)"),
  "a slice must be closed after its step": ("C04", "foo[1:2:[0], foo[1:2:|a and an unterminated [:: compiled (third slice part unchecked)"),
  "a high surrogate escape in a quoted identifier": ("C04", "\"\\uD83Dzu0041\" compiled as U+FFFD (&& for ||, c >= 0 for c >= '0')"),
+ "string slices with step 1 measure every code point": ("C12", "'\\x00\\U00041000'[:] returned two bytes (invalid UTF-8): the step-1 string slice decoded the first code point repeatedly (also C11)"),
+ "parentheses end a projection also before a dotted field": ("C17", "(a[*].b).c continued the projection instead of equalling a[*].b | c (also C01)"),
+ "raw control characters are not allowed in quoted identifiers": ("C04", "a quoted identifier containing a raw control character (e.g. NUL or newline) compiled"),
  "multi-select on a null value": ("C01", "`null` | [@, @] was null while `null` | [@] is [null]; a[*].[b] and a[*].{k: b} kept entries for null elements (also C17)"),
 }
 log = subprocess.check_output(['git','-C','/repo','log','--format=%h %s','--reverse']).decode().splitlines()
